@@ -133,6 +133,13 @@ CHECKS = {
         note="Pairs are explored, not enumerated; the interaction model's transform is pinned to its current formula; observed 0/1 excluded for it.",
         technique="paired-execution differential (non-interference) monitor + training-set post-condition on add_observations",
     ),
+    "C08": dict(
+        cat="exploration",
+        text="Trace monitor on the real Gibbs sampler: every random draw of every block (generator proxy handed to set_rng, numpy.random.normal/gamma, the multivariate-normal helper in the model's namespace) is intercepted with the full sampler state before the draw; the element it updates is inferred from the state diff, and the draw's parameters (normal mean/sd, gamma shape/rate, Q and Q^-1 b) are compared with a float64 re-derivation of the full conditional from the parameters alone; fitted values, alpha, precision bounds, block order and the exported sample are checked after every block / step; sample_mvn_from_precision's affine map is reconstructed with an injected generator.",
+        ref="4/C08",
+        note="Decides the distribution of each update through the parameters of the draw (deterministic), not through sampled frequencies; float32 sampler state bounds the tolerances (worst deviation observed ~1e-5 posterior sd, threshold 2e-3); default model options; self-paired drugs and treatment-free spaces excluded.",
+        technique="online trace monitor: intercepted draws checked against independently derived full conditionals",
+    ),
 }
 
 NOT_BUILT_REASON = "check not built yet in this revision (planned, see DESIGN.md section 4)"
